@@ -709,3 +709,16 @@ def clauses(tier, seed):
   except ImportError:
     pass
   return cl
+
+MANIFEST = {
+    'engine': 'symx+pyvc',
+    'technique': 'contract-based deductive: symbolic execution of the real step functions (exact stage systems), exact order conditions, z3 nlsat for A-stability, pyvc VCs over symbolic list lengths',
+    'text': ('proof: every clause is deductive and unbounded in the quantifiers of the property -- order conditions are exact '
+             'rational identities on the tableau derived by executing the real step functions on formal atoms (all F, all '
+             'linear G, all dt); |R(z)| <= 1 is proved for all z in the closed left half-plane by z3; length validation is '
+             'proved for all list lengths by VCs generated from the real source.'),
+    'note': ('trusted: order-condition theorem for additive RK / Dahlquist conditions (A6), tree_math leaf-wise arithmetic (A4), '
+             'tolerance 1e-15 (1e-11 for the 13-digit RK4 literals) on exact residuals (A2); for SIL3 the sharp inequality is '
+             'proved with slack 1e-12 because 1/6, 1/3 are not floats; z3, sympy, the engines themselves. Row-length '
+             'raggedness of Butcher tableaux is not covered.'),
+}
